@@ -1094,7 +1094,9 @@ def uniform2d_cases(rnd, tier):
 
 # ----------------------------------------------------------------------------- C19: source terms
 def source_cases(rnd, tier):
-    """rhs_with - rhs_without = source_i(x, Q) on equation i (0 elsewhere); callables get (cell centres, conservative data);
+    """(operators are built with the plain flowdyn.modeldisc here: the sibling history is laid out explicitly below, and the
+    recording sources must see the judged evaluations only)
+    rhs_with - rhs_without = source_i(x, Q) on equation i (0 elsewhere); callables get (cell centres, conservative data);
     nozzle: user sources are ADDED to the geometric ones, which are -g (rho u, rho u^2, rho u H), zero for a constant section"""
     recs = []
     ncase = 80 if tier == "quick" else 1000
@@ -1160,13 +1162,13 @@ def source_cases(rnd, tier):
                     sib.length = m.length
             hist = "sibling-before" if c % 2 == 0 else "sibling-after"
             if sib is not None and hist == "sibling-before":
-                fd.modeldisc.fvm(mw, sib, fd.recon(recon), numflux=flux, bcL=bcl, bcR=bcr)
-                fd.modeldisc.fvm(m0, sib, fd.recon(recon), numflux=flux, bcL=bcl, bcR=bcr)
-            dw = fd.modeldisc.fvm(mw, m, fd.recon(recon), numflux=flux, bcL=bcl, bcR=bcr)
-            d0 = fd.modeldisc.fvm(m0, m, fd.recon(recon), numflux=flux, bcL=bcl, bcR=bcr)
+                fd._real_modeldisc.fvm(mw, sib, fd.recon(recon), numflux=flux, bcL=bcl, bcR=bcr)
+                fd._real_modeldisc.fvm(m0, sib, fd.recon(recon), numflux=flux, bcL=bcl, bcR=bcr)
+            dw = fd._real_modeldisc.fvm(mw, m, fd.recon(recon), numflux=flux, bcL=bcl, bcR=bcr)
+            d0 = fd._real_modeldisc.fvm(m0, m, fd.recon(recon), numflux=flux, bcL=bcl, bcR=bcr)
             if sib is not None and hist == "sibling-after":
-                fd.modeldisc.fvm(mw, sib, fd.recon(recon), numflux=flux, bcL=bcl, bcR=bcr)
-                fd.modeldisc.fvm(m0, sib, fd.recon(recon), numflux=flux, bcL=bcl, bcR=bcr)
+                fd._real_modeldisc.fvm(mw, sib, fd.recon(recon), numflux=flux, bcL=bcl, bcR=bcr)
+                fd._real_modeldisc.fvm(m0, sib, fd.recon(recon), numflux=flux, bcL=bcl, bcR=bcr)
             prim = random_prim(kind if kind != "nozzle" else "euler1d", rnd, n, mild=not rough_ok(recon, m))
             if section is not None and section[1] != 0 and np.min(section[0] + section[1] * np.asarray(m.xf)) <= 0.05:
                 continue        # the section must stay positive on the mesh
@@ -1213,7 +1215,7 @@ def source_cases(rnd, tier):
             # geometric source of the nozzle alone against its definition, in exact arithmetic (linear section laws)
             if kind == "nozzle":
                 me = fd.euler.euler1d(gamma=gam)
-                de = fd.modeldisc.fvm(me, m, fd.recon(recon), numflux=flux, bcL=bcl, bcR=bcr)
+                de = fd._real_modeldisc.fvm(me, m, fd.recon(recon), numflux=flux, bcL=bcl, bcR=bcr)
                 fe = field_from_prim(me, m, prim)
                 with np.errstate(all="ignore"):
                     Re = [np.array(r, dtype=float) for r in de.rhs(fe)]
